@@ -113,6 +113,16 @@ h.conn(2, "a", "s2").recv(2, {"type": "list"})
 save("findings", "K-reclose-usage-row", h.h, ["C10"], {"resend": True},
      "a re-sent close of a mailbox that is already gone records a phantom mailbox (total_time 0) in the usage database")
 
+h = H()
+h.conn(1, "a", "s1").recv(1, {"type": "open", "mailbox": "m"}).recv(1, {"type": "add", "phase": "p", "body": "00"})
+h.conn(2, "a", "s2").recv(2, {"type": "open", "mailbox": "m"})
+h.recv(1, {"type": "close", "mood": "happy"})
+h.conn(3, "a", "s1").recv(3, {"type": "open", "mailbox": "m"})          # s1 again: subscribed, replayed, but opened stays 0
+h.recv(2, {"type": "close", "mood": "happy"})                            # deletes the mailbox under connection 3
+h.recv(3, {"type": "add", "phase": "q", "body": "01"})
+save("findings", "K-reopen-after-close", h.h, ["C08"], {},
+     "a side that closed a mailbox and opens it again is subscribed but its side record stays closed: the other side's close deletes the mailbox under it")
+
 # ---------------------------------------------------------------- repaired defects (corpus)
 # F-close-key (a): two sides on one nameplate, both open, both close -> IntegrityError before the repair
 h = H()
